@@ -114,10 +114,11 @@ theorem C07_close_sticky (e : Err) (c : Conn) (rs : List (Nat × Choice))
   (run_sticky e rs c ⟨h, Or.inl hr⟩).2
 
 /-- `Conn.Close()` on this side: the next `Read` on this side fails (no hang) and keeps
-failing. -/
+failing with the same class: gorilla's earlier sticky error if there was one, otherwise the
+"use of closed network connection" class. -/
 theorem C07_close_local (c : Conn) (rs : List (Nat × Choice)) :
-    ∀ r ∈ (run c.closeLocal rs).1, r = .err .other :=
-  (run_sticky .other rs c.closeLocal ⟨rfl, Or.inl rfl⟩).2
+    ∀ r ∈ (run c.closeLocal rs).1, r = .err (c.readErr.getD .other) :=
+  (run_sticky _ rs c.closeLocal ⟨rfl, Or.inl rfl⟩).2
 
 /-- Write: one `Write` is exactly one binary message carrying exactly `p` (also for the empty
 slice), reported length `len p`; on an open connection the peer's deliverable stream grows by
